@@ -1,5 +1,5 @@
 """C01 - single-extension answers are genuine extensions (narrow clauses only)"""
-from . import grounded, accept, provenance
+from . import cli, grounded, accept, provenance
 
 
 def run(ctx):
@@ -11,10 +11,12 @@ def run(ctx):
     cli.rule_dispatch(ctx, 'extension')
     provenance.rule_fresh_solver_per_encoding(ctx, 'extension')
     provenance.rule_range_encoding(ctx)
+    provenance.rule_literal_provenance(ctx, 'extension')
     accept.rule_tuple_components_consistent(ctx)
     accept.rule_every_component_contributes(ctx, 'extension')
     accept.rule_stage_layering(ctx, 'extension')
     grounded.rule_grounded_propagation(ctx)
+    cli.rule_encoder_selection(ctx)  # the CLI hands each solver the encoder of its base semantics, for every --encoding value
     ctx.assume("rustc's MIR / borrow checker (returned &Argument cannot point into a local component framework: witness W3, thorough tier)")
     return (
         "F5 return shapes of the six SingleExtensionComputer impls (`None` only for ST), F2/F5 on the stable solver's component loop (UNSAT in any "
